@@ -18,7 +18,13 @@ def validate_encoded(string):
       "{} is not a valid custom record type\n".format(repr(string)) +
       "(it is a predefined GFA2 record type)")
 
-validate_decoded = validate_encoded
+def validate_decoded(obj):
+  if not isinstance(obj, str):
+    raise gfapy.TypeError(
+      "the class {} is incompatible with the datatype\n"
+      .format(obj.__class__.__name__)+
+      "(accepted classes: str)")
+  validate_encoded(obj)
 
 def unsafe_encode(obj):
   return str(obj)
